@@ -23,6 +23,7 @@
 use super::unifiable::{*, Unifiable::*};
 use super::goal::*;
 use super::logic_var::*;
+use super::time_out::*;
 use super::parse_terms::*;
 use super::parse_goals::*;
 
@@ -102,7 +103,10 @@ pub fn make_query(terms: Vec<Unifiable>) -> Goal {
     // the substitution set. The substitution set is as large as
     // the highest variable ID (LOGIC_VAR_ID). Therefore LOGIC_VAR_ID
     // should be set to 0 for every query.
-    clear_id();  // Reset LOGIC_VAR_ID.
+    // A new query also starts with a cleared stop flag. If a previous
+    // query timed out, the flag would still be set, and count_rules()
+    // would report that there are no rules for this query.
+    start_query();  // Reset LOGIC_VAR_ID and SUIRON_STOP_QUERY.
 
     let mut new_terms: Vec<Unifiable> = vec![];
     let mut vars = VarMap::new();
